@@ -266,8 +266,8 @@ def run(tier):
                 # narrow identification of a known residue: a renamed object that had same-named siblings in its set
                 # keeps the copy number computed at creation, a fresh build numbers the names anew
                 renamed = [int(m.split('#')[1].split('.')[0]) for m in muts if '.name = ' in m]
-                sibling = any(sum(1 for o2 in objs if (o2['kind'], o2.get('set_name'), o2['name']) ==
-                                  (objs[oi]['kind'], objs[oi].get('set_name'), objs[oi]['name'])) > 1 for oi in renamed)
+                sibling = any(sum(1 for o2 in objs if (o2['kind'], o2['name']) == (objs[oi]['kind'], objs[oi]['name'])) > 1
+                              for oi in renamed)
                 key = 'rewrite:copy-number-not-recomputed-after-rename' if sibling else 'rewrite:stale-object-name'
                 chk.fail(key, case, 'after changing origin references / names the rewritten file differs '
                                     'from a fresh build of the changed specification')
@@ -374,6 +374,51 @@ def run(tier):
             elif s2 == 'ok' and d2 != d3:
                 chk.fail('rewrite:stale-derived-index-attribute', case, 'the second file differs from the one a fresh specification '
                                                                         'writes from the same rows')
+        # (g) value lists that are equal as numbers but of other types (ints / floats / bools / numeral strings) written
+        # earlier in the process: the representation code of a list is inferred from ITS values each time
+        for i in range(10 if tier == 'quick' else 80):
+            base = [R.randrange(2000, 9000) for _ in range(R.choice([1, 2, 3]))]
+            variants = {'ints': [int(x) for x in base], 'floats': [float(x) for x in base], 'strings': [str(x) for x in base],
+                        'float-strings': [f'{x}.0' for x in base]}
+            if len(base) > 1:
+                variants['mixed'] = [float(base[0])] + [int(x) for x in base[1:]]
+            first, second = R.sample(sorted(variants), 2)
+
+            def make3(vals):
+                df = _DF(set_identifier='SAMEVAL')
+                lf = df.add_logical_file()
+                lf.add_origin('O', file_set_number=1, creation_time='2020/01/01 00:00:00')
+                ch = lf.add_channel('C', data=_np.arange(3.0))
+                lf.add_frame('F', channels=[ch])
+                lf.add_axis('AX', coordinates=list(vals))
+                zs = [lf.add_zone(f'Z{k}') for k in range(len(vals))]
+                lf.add_parameter('P', values=list(vals), zones=zs)
+                return df
+            pth = os.path.join(tmp, 'sameval.dlis')
+            # the reference: the same calls in a fresh process
+            code = ("import sys, numpy as np\nfrom dliswriter import DLISFile\nvals = " + repr(variants[second]) + "\n"
+                    "df = DLISFile(set_identifier='SAMEVAL'); lf = df.add_logical_file()\n"
+                    "lf.add_origin('O', file_set_number=1, creation_time='2020/01/01 00:00:00')\n"
+                    "ch = lf.add_channel('C', data=np.arange(3.0)); lf.add_frame('F', channels=[ch])\n"
+                    "lf.add_axis('AX', coordinates=list(vals))\n"
+                    "zs = [lf.add_zone(f'Z{k}') for k in range(len(vals))]\n"
+                    "lf.add_parameter('P', values=list(vals), zones=zs)\n"
+                    "df.write(sys.argv[1], output_chunk_size=2**20)\n")
+            fpth = os.path.join(tmp, 'sameval_fresh.dlis')
+            if os.path.exists(fpth):
+                os.unlink(fpth)
+            pr = subprocess.run([sys.executable, '-c', code, fpth], stdout=subprocess.DEVNULL, stderr=subprocess.DEVNULL, timeout=120)
+            s_a, e_a = ('ok', None) if pr.returncode == 0 and os.path.exists(fpth) else ('err', f'exit {pr.returncode}')
+            d_a = open(fpth, 'rb').read() if s_a == 'ok' else None
+            call(make3(variants[first]).write, pth, output_chunk_size=2**20)                 # the history
+            s_b, e_b = call(make3(variants[second]).write, pth, output_chunk_size=2**20)
+            d_b = open(pth, 'rb').read() if s_b == 'ok' else None
+            case = {'values': variants[second], 'equal_values_written_earlier_in_the_process': variants[first]}
+            chk.case('equal-values-other-types', nontrivial_key=('g', i), sample=dict(case, before=s_a, after=s_b))
+            if (s_a == 'ok') != (s_b == 'ok'):
+                chk.fail('history:writability-differs-after-equal-values', case, f'fresh process: {s_a} {e_a}; after the history: {s_b} {e_b}')
+            elif s_a == 'ok' and d_a != d_b:
+                chk.fail('history:bytes-differ-after-equal-values', case, 'the file differs from the one a fresh process writes')
         # (f) the same at the level of the checks themselves, against the DimState model
         from harness import defaults as _defaults
         _defaults.sequence_stream(chk, model, bres, rng('C14', 'dimension-sequences'), 150 if tier == 'quick' else 1500)
